@@ -559,9 +559,13 @@ J_range(e) ==
        \o RangeItems(a, b, abs, unit, stp, crossSkip, ambiguous, p.items, 1))
 J_contains(e) ==
   LET a == PtOf(e.pre[1])  b == PtOf(e.pre[2])  x == PtOf(e.pre[3])
-      ambiguous == a.k = "dt" /\ ~IsNaive(a) /\ (Ambig(a) \/ Ambig(b) \/ Ambig(x))
+      \* CPython orders two values that SHARE a tzinfo by wall clock, ignoring fold: no verdict when such a pair has a
+      \* member on an ambiguous wall time (soundness rule 2); a probe from another zone is compared by instants
+      SameZ(u, v) == u.k = "dt" /\ v.k = "dt" /\ ~IsNaive(u) /\ ZRef(u.z) = ZRef(v.z)
+      Clash(u, v) == SameZ(u, v) /\ (Ambig(u) \/ Ambig(v))
+      ambiguous == Clash(x, a) \/ Clash(x, b) \/ (e.a.abs /\ Clash(a, b))
       want == Contains(a, b, e.a.abs, x)
-  IN R(<<a.k, B(e.a.abs), B(want), B(ambiguous)>>,
+  IN R(<<a.k, B(e.a.abs), B(want), B(ambiguous), "end-ambiguous", B(Ambig(a) \/ Ambig(b)), "probe-other-zone", B(~SameZ(x, a))>>,
        IF ambiguous THEN <<>> ELSE
        IF e.post.k = "exc" THEN << <<"unexpected-exception", e.post.names>> >>
        ELSE V("contains", e.post.v = want, want))
